@@ -249,7 +249,8 @@ func (w *world) dealFrom(f, g *share.PriPoly, commits []kyber.Point, t uint32, i
 
 var dealClasses = []string{"honest", "honest", "honest", "badshare", "badshare", "badcommits-stale", "badcommits-resid",
 	"otherpoly", "wrongindex", "badT-stale", "badT-resid", "otherT", "wrongrecipient", "forgedsig-key", "forgedsig-bytes",
-	"wrongctx-verifiers", "wrongctx-dealer", "tampered", "replay", "sid-junk", "sid-swapped", "badrnd", "rndindex", "none"}
+	"wrongctx-verifiers", "wrongctx-dealer", "tampered", "replay", "sid-junk", "sid-swapped", "badrnd", "rndindex", "none",
+	"xsession-deal", "forgedsig-transplant", "dhkey-transplant", "none"}
 
 type participant struct {
 	ver      Ver
@@ -349,6 +350,52 @@ func scenario(w *world, honest bool) {
 
 	// a second sharing, for equivocation
 	of, og, ocommits := w.otherPoly(w.t)
+
+	// a second, complete SESSION of the same dealer key with the same verifier keys (another secret, possibly
+	// another threshold), run through the real code: its encrypted deals, its signed responses and its
+	// signed justifications are later transplanted into the session under test
+	var s2encs []*NEnc
+	var s2resps []*NResp
+	var s2justs []*NJust
+	var s2sid []byte
+	if !honest {
+		t2 := uint32(2 + rng.Intn(w.n-1))
+		D2, err := P.NewDealer(w.s, w.dsec, w.pick(), w.vpub, t2)
+		if err != nil {
+			panic(err)
+		}
+		d20 := D2.Plain(0)
+		s2sid = w.regSid(w.dpub, w.vpub, d20.Commits, d20.T)
+		for i := 0; i < w.n; i++ {
+			e2, err := D2.EncDeal(i)
+			if err != nil {
+				panic(err)
+			}
+			e2.Meta = encMeta{Signer: w.dpub, Rcpt: w.vpub[i], CDealer: w.dpub, CVs: w.vpub, Intact: true, Deal: D2.Plain(i).clone(), Class: "xsession-deal"}
+			s2encs = append(s2encs, e2)
+			v2, err := P.NewVerifier(w.s, w.vsec[i], w.dpub, w.vpub)
+			if err != nil {
+				panic(err)
+			}
+			r2, err := v2.Enc(e2)
+			if err != nil || r2 == nil || !r2.Appr {
+				w.fail("honest-run/verifier-did-not-approve", "second session: an honest verifier did not approve an honest deal", map[string]any{"verifier": i})
+				continue
+			}
+			r2.Tag = "xsession"
+			s2resps = append(s2resps, r2)
+		}
+		// real, signed justifications of the second session (answers to signed complaints)
+		for i := 0; i < w.n; i++ {
+			c := &NResp{Sid: s2sid, Idx: uint32(i), Appr: false}
+			w.signResp(c, w.vsec[i])
+			if j2, err := D2.Resp(c); err == nil && j2 != nil {
+				j2.Tag = "xsession-just"
+				j2.Deal = j2.Deal.clone()
+				s2justs = append(s2justs, j2)
+			}
+		}
+	}
 
 	// ---- deals
 	parts := make([]*participant, w.n)
@@ -458,6 +505,22 @@ func scenario(w *world, honest bool) {
 			e := P.Tamper(w.seal(base, i, class), "cipher")
 			e.Meta.Intact = false
 			encs = append(encs, e)
+		case "xsession-deal":
+			// the encrypted deal of the other session, replayed here: a consistent deal of the same dealer
+			encs = append(encs, s2encs[i])
+			if rng.Bool() {
+				encs = append(encs, w.seal(honestDeals[i].clone(), i, "honest-after-xsession"))
+			}
+		case "forgedsig-transplant":
+			// a valid dealer signature, but made over the DH key of another encrypted deal
+			e := P.Splice(w.seal(base, i, class), s2encs[i], "sig")
+			e.Meta.Signer = nil
+			encs = append(encs, e)
+		case "dhkey-transplant":
+			// the signed DH key of another encrypted deal in front of this ciphertext
+			e := P.Splice(w.seal(base, i, class), s2encs[i], "dh")
+			e.Meta.Intact = false
+			encs = append(encs, e)
 		case "replay":
 			e := w.seal(base, i, class)
 			encs = append(encs, e, e)
@@ -501,7 +564,18 @@ func scenario(w *world, honest bool) {
 				w.signResp(r, w.vsec[idx])
 				r.Tag = "verifier-signed"
 			}
-			switch rng.Intn(8) {
+			switch rng.Intn(11) {
+			case 8, 9: // signed by the verifier for ANOTHER session id, SessionID field then rewritten to this session
+				r.Sid = [][]byte{sids[1], sids[2], s2sid}[rng.Intn(3)]
+				w.signResp(r, w.vsec[r.Idx])
+				r.Sid = mainView.sid
+				r.Tag = "sid-rewritten"
+			case 10: // signed by verifier i over ANOTHER index, Index field then rewritten to i
+				i := r.Idx
+				r.Idx = uint32((int(i) + 1 + rng.Intn(w.n-1)) % w.n)
+				w.signResp(r, w.vsec[i])
+				r.Idx = i
+				r.Tag = "index-rewritten"
 			case 0: // approval bit flipped after signing
 				r.Appr = !r.Appr
 				r.Tag = "flipped"
@@ -534,6 +608,18 @@ func scenario(w *world, honest bool) {
 			}
 			pool = append(pool, r)
 		}
+		// cross-session replay: the genuine responses of the second session, unchanged and with the
+		// (unsigned) SessionID field rewritten to this session
+		for _, r2 := range s2resps {
+			if rng.Chance(50) {
+				c := *r2
+				pool = append(pool, &c)
+			}
+			c := *r2
+			c.Sid = mainView.sid
+			c.Tag = "xsession-sid-rewritten"
+			pool = append(pool, &c)
+		}
 	}
 
 	// ---- justifications the dealer may broadcast
@@ -559,6 +645,20 @@ func scenario(w *world, honest bool) {
 			&NJust{Idx: uint32(idx), Deal: nil, Tag: "nil-deal"},
 			&NJust{Idx: uint32(w.n + rng.Intn(2)), Deal: honestDeals[idx].clone(), Tag: "index-out-of-range"},
 			&NJust{Idx: uint32(idx), Deal: D.Plain(idx).clone(), Tag: "dealer-current"})
+		// cross-session: the signed justification of the second session, as is, with the deal's session id
+		// rewritten, and with this session's good deal put under the other session's signature
+		for _, j2 := range s2justs {
+			if int(j2.Idx) != idx {
+				continue
+			}
+			a := *j2
+			b := *j2
+			b.Deal = j2.Deal.clone()
+			b.Deal.Sid = mainView.sid
+			b.Sid = mainView.sid
+			b.Tag = "xsession-just-sid-rewritten"
+			l = append(l, &a, &b)
+		}
 		return l
 	}
 
@@ -596,6 +696,9 @@ func scenario(w *world, honest bool) {
 				w.deliverTimeout(p, i)
 			default:
 				e := w.seal(honestDeals[i].clone(), i, "late-deal")
+				if len(s2encs) == w.n && order.Chance(30) {
+					e = s2encs[i]
+				}
 				w.deliverEnc(p, i, e, 99)
 			}
 		}
